@@ -81,16 +81,16 @@ theorem prefix_cons_cases {α : Type} {p : List α} {a : α} {l : List α} (h : 
 
 /-! ### the phases of one save -/
 
-theorem failedWrite_local (tmp : P) (part : Bytes) (after : List Bytes) :
+theorem failedWrite_local (tmp : P) (part : Bytes) (after : List (Bytes × Bool)) :
     ∀ e ∈ failedWrite tmp part after, LocalTo tmp e := by
   intro e he
   simp only [failedWrite, List.mem_cons, List.mem_append, List.mem_map, List.not_mem_nil, or_false] at he
   rcases he with rfl | ⟨c, _, rfl⟩ | rfl | rfl <;> simp [LocalTo, badEv, okEv]
 
-theorem failedWrite_final (tmp : P) (part : Bytes) (after : List Bytes) (fs : FS P) :
+theorem failedWrite_final (tmp : P) (part : Bytes) (after : List (Bytes × Bool)) (fs : FS P) :
     applyEvs fs (failedWrite tmp part after) tmp = none := by
   have : failedWrite tmp part after =
-      (badEv (.write tmp part) :: (after.map (fun c => okEv (.write tmp c)) ++ [okEv (.close tmp)])) ++
+      (badEv (.write tmp part) :: (after.map (fun c => (⟨.write tmp c.1, c.2⟩ : Ev P)) ++ [okEv (.close tmp)])) ++
         [okEv (.remove tmp)] := by simp [failedWrite]
   rw [this, applyEvs_append]
   simp [applyEv, okEv, applyOp]
@@ -122,7 +122,7 @@ theorem tailRun_prefix {tgt tmp : P} (htt : tgt ≠ tmp) (k : Option Nat) (fs : 
   · exact hren _ (by simp [LocalTo, badEv]) hp
   · exact hren _ (by simp [LocalTo, okEv]) hp
 
-theorem writesRun_prefix {tgt tmp : P} (htt : tgt ≠ tmp) (part : Bytes) (after : List Bytes) (chunks : List Bytes) :
+theorem writesRun_prefix {tgt tmp : P} (htt : tgt ≠ tmp) (part : Bytes) (after : List (Bytes × Bool)) (chunks : List Bytes) :
     ∀ (k : Option Nat) (fs : FS P) (b : Bytes), fs tmp = some b →
       ∀ p, p <+: (writesRun tgt tmp part after chunks k).evs →
         applyEvs fs p tgt = fs tgt ∨ applyEvs fs p tgt = some (b ++ chunks.flatten) := by
@@ -184,7 +184,7 @@ theorem tailRun_final {tgt tmp : P} (htt : tgt ≠ tmp) (k : Option Nat) (fs : F
   unfold Final tailRun
   split <;> simp [applyEv, failEffect, applyOp, okEv, badEv, hb, set_other _ _ htt, set_other _ _ htt']
 
-theorem writesRun_final {tgt tmp : P} (htt : tgt ≠ tmp) (part : Bytes) (after : List Bytes) (chunks : List Bytes) :
+theorem writesRun_final {tgt tmp : P} (htt : tgt ≠ tmp) (part : Bytes) (after : List (Bytes × Bool)) (chunks : List Bytes) :
     ∀ (k : Option Nat) (fs : FS P) (b : Bytes), fs tmp = some b →
       Final fs (applyEvs fs (writesRun tgt tmp part after chunks k).evs) tgt tmp (b ++ chunks.flatten)
         (writesRun tgt tmp part after chunks k) := by
@@ -229,7 +229,7 @@ theorem saveRun_final {tgt tmp : P} (htt : tgt ≠ tmp) (chunks : List Bytes) (f
     · exact hopen _ _ _
 
 /-- the fault-free run performs exactly `saveOps` -/
-theorem writesRun_none (tgt tmp : P) (part : Bytes) (after : List Bytes) (chunks : List Bytes) :
+theorem writesRun_none (tgt tmp : P) (part : Bytes) (after : List (Bytes × Bool)) (chunks : List Bytes) :
     (writesRun tgt tmp part after chunks none).evs =
       (chunks.map (FsOp.write tmp) ++ [FsOp.close tmp, FsOp.rename tmp tgt, FsOp.remove tmp]).map okEv ∧
     (writesRun tgt tmp part after chunks none).renamed = true ∧ (writesRun tgt tmp part after chunks none).raised = false := by
@@ -248,7 +248,7 @@ theorem tailRun_not_renamed (tgt tmp : P) (k : Option Nat) :
     (tailRun tgt tmp k).renamed = false → (tailRun tgt tmp k).raised = true := by
   unfold tailRun; split <;> simp
 
-theorem writesRun_not_renamed (tgt tmp : P) (part : Bytes) (after : List Bytes) (chunks : List Bytes) (k : Option Nat) :
+theorem writesRun_not_renamed (tgt tmp : P) (part : Bytes) (after : List (Bytes × Bool)) (chunks : List Bytes) (k : Option Nat) :
     (writesRun tgt tmp part after chunks k).renamed = false → (writesRun tgt tmp part after chunks k).raised = true := by
   induction chunks generalizing k with
   | nil => simpa [writesRun] using tailRun_not_renamed tgt tmp k
